@@ -131,3 +131,31 @@ class ReadLink:
 
     def close(self):
         pass
+
+
+class StreamLink:
+    """For Cloader.write_flash alone: the k-th receive_packet(wait > 0) returns rx[k]; after the list: `tail` —
+    None (silence) or a packet returned for ever.  receive_packet(0) (the flush) finds nothing.  Listen budget as in
+    c12_target.Link."""
+
+    def __init__(self, rx, tail, CRTPPacket, budget=200):
+        self.rx, self.tail, self.P, self.budget = [None if e is None else [e[0], list(e[1])] for e in rx], tail, CRTPPacket, budget
+        self.k = 0
+        self.sent = []
+
+    def send_packet(self, pk):
+        self.sent.append([pk.header] + list(bytes(pk.data)))
+        if len(self.sent) > 100:
+            raise ft.HarnessAbort('flash-write retried without bound')
+
+    def receive_packet(self, wait=0):
+        if not wait:
+            return None
+        k, self.k = self.k, self.k + 1
+        if self.k > self.budget:
+            raise ft.HarnessAbort('listen budget exceeded: %d receive_packet calls' % self.k)
+        e = self.rx[k] if k < len(self.rx) else self.tail
+        return None if e is None else self.P(e[0], bytearray(e[1]))
+
+    def close(self):
+        pass
